@@ -336,6 +336,13 @@ _CALLS = {}
 def p_pool(x, poison=(), fail_after=None, d=0.0):
     """pool target: x is a unique input id; raises on poison inputs; dies after `fail_after` calls (per worker)"""
     truth('p-enter', x=x)
+    if isinstance(x, dict) and x.get('$swallow'):
+        while True:
+            try:
+                while True:
+                    time.sleep(0.01)
+            except Exception:
+                truth('swallowed')
     key = (_os.getpid(), get_ident())
     n = _CALLS.get(key, 0) + 1
     _CALLS[key] = n
